@@ -27,6 +27,9 @@ pub struct XferSpec {
     /// the peer only sends protocol-conformant datagrams
     pub conformant: bool,
     pub dally: bool,
+    /// ceil(peer retransmission timer / server timeout): how many server-side timeouts one
+    /// lost datagram can cost before the peer repairs it
+    pub timeout_ratio: u32,
 }
 
 #[derive(Clone, Copy, Default, Debug)]
@@ -161,6 +164,10 @@ impl XferMon {
 
     fn v(&self, rule: &str, detail: String) -> Violation {
         Violation::new(self.prop, &format!("{}.{}", self.prop, rule), detail)
+    }
+
+    fn vk(&self, rule: &str, kind: Kind, detail: String) -> Violation {
+        self.v(rule, detail).sig("role", if kind == Kind::Download { "download" } else { "upload" })
     }
 
     fn spec_of(&self, x: SocketAddr) -> Option<usize> {
@@ -414,7 +421,7 @@ impl XferMon {
             self.probe(p);
         }
         self.state_hash(task);
-        viol.map(|(r, d)| self.v(&r, d))
+        viol.map(|(r, d)| self.vk(&r, kind, d))
     }
 
     fn on_wrecv(&mut self, _st: &Stamp, task: TaskId, r: WRecv) -> Option<Violation> {
@@ -555,7 +562,7 @@ impl XferMon {
             self.probe(p);
         }
         self.state_hash(task);
-        viol.map(|(r, d)| self.v(&r, d))
+        viol.map(|(r, d)| self.vk(&r, kind, d))
     }
 
     fn on_end(&mut self, w: &Inner, task: TaskId, panic: &Option<String>) -> Option<Violation> {
@@ -627,16 +634,18 @@ impl XferMon {
         if inconclusive {
             self.inconclusive = true;
         }
-        viol.map(|(r, d)| self.v(&r, d))
+        viol.map(|(r, d)| self.vk(&r, kind, d))
     }
 
+    /// Upper bound on the failed receive attempts (on one side) one fault can explain.
     fn note_fault(&mut self, fate: Fate) {
+        let r = self.specs.iter().map(|s| s.timeout_ratio).max().unwrap_or(1).max(1);
         self.fault_weight += match fate {
-            Fate::Drop => 1,
+            Fate::Drop => r,
             Fate::Dup => 1,
-            Fate::Delay => 1,
-            Fate::BigDelay => 4,
-            Fate::Late => 2,
+            Fate::Delay => r,
+            Fate::BigDelay => 3 + r,
+            Fate::Late => 1 + r,
             _ => 0,
         };
     }
@@ -679,7 +688,7 @@ impl Monitor for XferMon {
                     _ => {}
                 }
             }
-            Ev::Stall { .. } => self.fault_weight += 4,
+            Ev::Stall { .. } => self.fault_weight += 4 + self.specs.iter().map(|s| s.timeout_ratio).max().unwrap_or(1).max(1),
             Ev::RecvRet { res: crate::world::RecvRes::Err(std::io::ErrorKind::Interrupted), .. } => self.fault_weight += 1,
             Ev::End { task, panic } => return self.on_end(w, *task, panic),
             Ev::Fs { task: Actor::Task(t), op, .. } if *op == "remove" || *op == "keep" => {
